@@ -1,6 +1,6 @@
 """C01 - the parser accepts exactly the GraphQL grammar and fails only with syntax errors."""
 from vf import known  # noqa: F401
-from vf.spec import Cond, result, untraced, shard_of, thorough, concrete_int  # noqa: F401
+from vf.spec import Cond, result, untraced, shard_of, thorough, concrete_int, pick  # noqa: F401
 
 from oracles import ref_lexer as R
 from py_gql.exc import GraphQLSyntaxError
@@ -512,7 +512,56 @@ def _lex_shaped(p: int, t: str) -> bool:
     return result(ok, reached)
 
 
+# ------------------------------------------------------------------ UTF-8 byte input == the same text as str
+BYTES_PREFIX = ("", "﻿", "#é\n", "#\U0001F600\r", "﻿﻿ ")
+BYTES_SUFFIX = ("", '"é', '"""€', '"\\u00e9', "é", "#€", '"\U0001F600" ', '"""é\n""" ', '"aé\\', '"""\U0001F600\\"""')
+
+
+def _outcome(entry, src):
+    """('ok', tree as dict) | ('error', class name, position, rendered message, response dict); any other exception propagates"""
+    try:
+        if entry == "value":
+            node = P.parse_value(src)
+        elif entry == "type":
+            node = P.parse_type(src)
+        else:
+            node = P.parse(src, allow_type_system="_ts" in entry, experimental_fragment_variables="fragvars" in entry)
+        return ("ok", node.to_dict())
+    except GraphQLSyntaxError as err:
+        return ("error", type(err).__name__, err.position, str(err), err.to_dict())
+
+
+def _bytes_equiv(seed: int, cut: int, pre: int, suf: int) -> bool:
+    """
+    pre: 0 <= seed < n_seeds() and 0 <= cut <= 120 and 0 <= pre < len(BYTES_PREFIX) and 0 <= suf < len(BYTES_SUFFIX)
+    pre: shard_of(seed)
+    pre: thorough() or pre == 0 or suf <= 1
+    post: _
+    """
+    S = concrete_int(seed, 0, n_seeds() - 1)
+    entry, text = SEEDS[seed_pick(S)]
+    if cut > len(text):
+        return result(True, False)
+    CUT = concrete_int(cut, 0, len(text))
+    PRE, SUF = pick(pre, BYTES_PREFIX), pick(suf, BYTES_SUFFIX)
+    with untraced():
+        src = PRE + text[:CUT] + SUF
+        as_str = _outcome(entry, src)
+        as_bytes = _outcome(entry, src.encode("utf-8"))
+        ok = as_str == as_bytes and parse_text_agree(entry, src)
+    return result(ok, True)
+
+
 CONDITIONS = [
+    Cond(
+        name="bytes_equiv", fn=_bytes_equiv, quick=90, thorough=400, per_path=30, shards_quick=N_SEEDS_QUICK, shards_thorough=len(SEEDS),
+        bound="UTF-8 bytes vs str: %d (thorough: all %d) seed texts cut at EVERY position x %d prefixes (BOM, comment with a 2-byte / 4-byte character ended by LF / CR) x %d suffixes (quick: every prefix with the first two suffixes, every suffix without prefix; unterminated quoted / block string, "
+              "escape or bare character of 2, 3, 4 UTF-8 bytes, terminated strings with such characters, string cut inside an escape): parsing the encoded bytes gives the same tree or the same syntax error (class, position, "
+              "rendered message, response dictionary) as parsing the text, never another exception; the text itself is also compared with the reference lexer + grammar" % (N_SEEDS_QUICK, len(SEEDS), len(BYTES_PREFIX), len(BYTES_SUFFIX)),
+        symbolic={"seed": "choice: seed text", "cut": "choice: cut position", "pre,suf": "choice: non-ASCII prefix / suffix"},
+        assumptions=["str.encode realises a symbolic string in CrossHair, so the text is assembled from choice variables and encoded concretely"],
+        witness={"seed": 0, "cut": 3, "pre": 1, "suf": 1},
+    ),
     Cond(name="parse_text", fn=_parse_text, kind="concrete", cases=_named_cases,
          bound="fixed texts (seed corpus + named defects): real parse entry points vs reference lexer + grammar; NOT a solver result"),
     Cond(
